@@ -3,11 +3,14 @@ import Qfx.Drv.Util
 import Qfx.Drv.Val
 import Qfx.Drv.ValMon
 import Qfx.Drv.Sched
+import Qfx.Drv.Dict
+import Qfx.Drv.DictMon
 namespace Qfx.Drv
 
 def families : List (String × Family) :=
   [ ("val", valFamily), ("val-mon", valMonFamily)
   , ("sched", schedFamily)
+  , ("dict", dictFamily), ("dict-mon", dictMonFamily)
   ]
 
 end Qfx.Drv
